@@ -164,6 +164,13 @@ def cellsize_binding(prog, rep, public, path, f0, kern, params, expect):
     # evaluate later simple assignments (cellsize = (cx + cy) / 2)
     sp = Spec(prog, dict(res), public.module)
     for n in public.node.body:
+        if isinstance(n, ast.Assign) and len(n.targets) == 1 and isinstance(n.targets[0], (ast.Tuple, ast.List)) and isinstance(n.value, ast.Name) and \
+                hasattr(sp.it.env.get(n.value.id), 'items') and len(n.targets[0].elts) == len(sp.it.env[n.value.id].items) and \
+                all(isinstance(x_, ast.Name) for x_ in n.targets[0].elts):
+            # the pair kept under one name and taken apart afterwards: `res = get_dataarray_resolution(agg); cx, cy = res`
+            for x_, v_ in zip(n.targets[0].elts, sp.it.env[n.value.id].items):
+                sp.it.env[x_.id] = v_
+            continue
         if isinstance(n, ast.Assign) and len(n.targets) == 1 and isinstance(n.targets[0], ast.Name):
             names = {x.id for x in ast.walk(n.value) if isinstance(x, ast.Name)}
             if names and names <= set(sp.it.env):
